@@ -1,1 +1,213 @@
-(* placeholder until the proofs land *)
+(* Properties/C04.v — pinned statements for C04: preprocessor-cache (direct) mode never returns a result for
+   changed inputs.  Models: Model/TimeMacro.v, Model/PpCache.v (the code after the fix: commits of verif/C04). *)
+From Coq Require Import List NArith Bool.
+From Coq Require String.
+Import String.StringSyntax.
+From Sccache Require Import Base.Sx Gen.C04Consts Model.PpPaths Model.TimeMacro Model.PpCache Model.LineMarker
+     Proofs.TimeMacro Proofs.PpCache Proofs.LineMarker Run.C04.
+Import ListNotations.
+Local Open Scope N_scope.
+
+(* If a lookup in file system fs1 (date date1) accepts a result of a manifest built by ANY sequence of recordings
+   (fresh or accumulated, any file systems / start instants / dates / include lists), then that result was
+   recorded by one of them, and every include that recording had to remember (regular file announced by the
+   preprocessor output, not the input file, not <built-in>-like, not a skipped system header) is a regular file in
+   fs1 with the SAME BYTES, and - unless ignore_time_macros - the date (resp. the file's mtime) is the same when the
+   file mentions __DATE__ (resp. __TIMESTAMP__), and it does not mention __TIME__.  All 32 option combinations;
+   `stat_trust` ("equal (size, mtime, ctime) implies equal bytes") is needed, and assumed, only when
+   file_stat_matches and use_ctime_for_stat are both on.  BLAKE3 = injective H / HT. *)
+Theorem C04_lookup_sound :
+  forall (D : Type) (Deqb : D -> D -> bool) (H : bytes -> D) (HT : option bytes -> option N -> D),
+    (forall a b : D, Deqb a b = true -> a = b) ->
+    (forall a b : bytes, H a = H b -> a = b) ->
+    (forall od om od' om', HT od om = HT od' om' -> od = od' /\ om = om') ->
+    forall (cfg : config) (ops : list rec_op) (fs1 : fsnap) (date1 : bytes) (k : key),
+      (file_stat_matches cfg = true -> use_ctime_for_stat cfg = true ->
+       forall op, In op ops -> stat_trust (ro_fs op) fs1) ->
+      lookup_result_digest D Deqb H HT cfg fs1 date1 (run_recs D H HT cfg ops) = Some k ->
+      exists op, In op ops /\ ro_key op = k /\
+        forall p, must_record cfg op p -> unchanged cfg (ro_fs op) (ro_date op) fs1 date1 p.
+Proof. exact lookup_sound. Qed.
+Print Assumptions C04_lookup_sound.
+
+(* The INPUT file's part of the manifest key (preprocessor_cache_entry_hash_key): two requests that reach the same
+   manifest have the same input bytes and, unless ignore_time_macros, the same __DATE__ / __TIMESTAMP__ expansions;
+   an input mentioning __TIME__ never gets a manifest key. *)
+Theorem C04_input_digest_sound :
+  forall (D : Type) (H : bytes -> D) (HT : option bytes -> option N -> D),
+    (forall a b : bytes, H a = H b -> a = b) ->
+    (forall od om od' om', HT od om = HT od' om' -> od = od' /\ om = om') ->
+    forall (cfg : config) b0 d0 m0 b1 d1 m1 x,
+      input_file_digest D H HT cfg b0 d0 m0 = Some x ->
+      input_file_digest D H HT cfg b1 d1 m1 = Some x ->
+      b1 = b0 /\
+      (ignore_time_macros cfg = false -> mentions WDate b0 -> d1 = d0) /\
+      (ignore_time_macros cfg = false -> mentions WTimestamp b0 -> m1 = m0) /\
+      (ignore_time_macros cfg = false -> ~ mentions WTime b0).
+Proof. exact input_digest_sound. Qed.
+Print Assumptions C04_input_digest_sound.
+
+(* Recording is given up (and the stored manifest left untouched) exactly when one of the includes the recorder
+   has to look at is missing, not a regular file or directory, has mtime >= start or ctime >= start, or
+   (unless ignore_time_macros) mentions __TIME__ — in particular a header with mtime < start and ctime < start
+   does not disable it: both sides of the instant. *)
+Theorem C04_record_sound :
+  forall (D : Type) (H : bytes -> D) (HT : option bytes -> option N -> D) (cfg : config) (e : entry D) (op : rec_op),
+    (snd (apply_rec D H HT cfg e op) = RecDisabled <->
+     exists p sys, In (p, sys) (ro_incs op) /\ filters cfg (ro_input op) p sys /\
+                   bad_include cfg (ro_fs op) (ro_start op) p) /\
+    (snd (apply_rec D H HT cfg e op) <> RecOk -> fst (apply_rec D H HT cfg e op) = e).
+Proof. exact record_sound. Qed.
+Print Assumptions C04_record_sound.
+
+(* The time-macro scan, for ALL ways of splitting the bytes into reads (any list of chunks): a flag is set
+   if and only if the pattern occurs in the file. *)
+Theorem C04_scan_exact :
+  forall (chunks : list bytes) (w : which),
+    flag w (scan_chunks chunks) = true <-> occurs (pat w) (concat chunks).
+Proof. exact scan_exact. Qed.
+Print Assumptions C04_scan_exact.
+
+Theorem C04_scan_no_false_negative :
+  forall (chunks : list bytes) (w : which),
+    occurs (pat w) (concat chunks) -> flag w (scan_chunks chunks) = true.
+Proof. intros chunks w Ho. apply scan_exact. exact Ho. Qed.
+Print Assumptions C04_scan_no_false_negative.
+
+Theorem C04_scan_chunk_independent :
+  forall c1 c2 : list bytes, concat c1 = concat c2 -> flags_of (scan_chunks c1) = flags_of (scan_chunks c2).
+Proof. exact scan_chunk_independent. Qed.
+Print Assumptions C04_scan_chunk_independent.
+
+(* the digest of a file read in chunks, for any incremental hash (update law of BLAKE3) *)
+Theorem C04_digest_chunk_independent :
+  forall (Hst : Type) (upd : Hst -> bytes -> Hst),
+    (forall h a b, upd (upd h a) b = upd h (a ++ b)) -> (forall h, upd h [] = h) ->
+    forall h0 c1 c2, concat c1 = concat c2 -> digest_chunks Hst upd h0 c1 = digest_chunks Hst upd h0 c2.
+Proof. exact digest_chunk_independent. Qed.
+Print Assumptions C04_digest_chunk_independent.
+
+(* A direct-mode hit returns exactly the key the slow path would compute now.  The preprocessor `pp`, the files
+   it reads / probes and the main key function are abstract; `pp_frame` is the frame of the preprocessor.
+   Named side conditions: env_main_subset_env_pp (S16), no_new_shadowing_file (documented caveat). *)
+Theorem C04_mode_equivalence :
+  forall (D : Type) (Deqb : D -> D -> bool) (H : bytes -> D) (HT : option bytes -> option N -> D),
+    (forall a b : D, Deqb a b = true -> a = b) ->
+    (forall a b : bytes, H a = H b -> a = b) ->
+    (forall od om od' om', HT od om = HT od' om' -> od = od' /\ om = om') ->
+    forall (Req : Type) (env_pp env_main : list bytes) (pp : Req -> env_t -> fsnap -> bytes -> bytes)
+           (reads probes : Req -> env_t -> fsnap -> bytes -> list path) (main_key : Req -> env_t -> bytes -> key),
+      (forall req env fs0 d0 fs1 d1,
+          same_inputs Req reads probes req env fs0 d0 fs1 d1 -> pp req env fs1 d1 = pp req env fs0 d0) ->
+      forall (cfg : config) (req : Req) (env0 env1 : env_t) (ops : list rec_op) (fs1 : fsnap) (date1 : bytes) (k : key),
+        forall (env_main_subset_env_pp : forall n, In n env_main -> In n env_pp),
+          ignore_time_macros cfg = false ->
+          (file_stat_matches cfg = true -> use_ctime_for_stat cfg = true ->
+           forall op, In op ops -> stat_trust (ro_fs op) fs1) ->
+          filter_env env_pp env1 = filter_env env_pp env0 ->
+          (forall op, In op ops -> faithful Req env_pp env_main pp reads main_key cfg req env0 op) ->
+          forall (no_new_shadowing_file :
+                    forall op p, In op ops -> In p (probes req (filter_env env_pp env0) (ro_fs op) (ro_date op)) ->
+                                 fs_get fs1 p = None),
+            lookup_result_digest D Deqb H HT cfg fs1 date1 (run_recs D H HT cfg ops) = Some k ->
+            k = main_key req (filter_env env_main env1) (pp req (filter_env env_pp env1) fs1 date1).
+Proof. exact mode_equivalence. Qed.
+Print Assumptions C04_mode_equivalence.
+
+(* The line-marker scan (process_preprocessed_file / process_preprocessor_line): for every preprocessor output that
+   is a sequence of lines `# <digits> "<path>"<flags>` and body lines (wf_line: digits not starting with 3 - the
+   GCC-6 special cases -, path non-empty without quote/newline, flags digits and spaces; body lines do not start
+   with '#' or '_' and do not contain ".incbin"), the scan hands exactly the announced paths, in order, to the
+   include recorder of Model/PpCache.v (path normalised, made absolute; system = flag 3; <...> names skipped),
+   leaves the text unchanged, and gives up iff the recorder does. *)
+Theorem C04_markers_complete :
+  forall (D : Type) (H : bytes -> D) (HT : option bytes -> option N -> D) (cfg : config) (fs : fsnap) (start : N)
+         (date : bytes) (input : path) (cwd : bytes) (ls : list line),
+    forallb wf_line ls = true ->
+    process_preprocessed_file D H HT cfg fs start date input cwd (render_lines ls) =
+    match remember_all D H HT cfg fs start date input [] (incs_of cwd ls) with
+    | Some inc => LmOk D inc (render_lines ls)
+    | None => LmDisabled D
+    end.
+Proof. exact markers_complete_recorder. Qed.
+Print Assumptions C04_markers_complete.
+
+(* ---------------- non-vacuity ---------------- *)
+Local Open Scope string_scope.
+
+(* the hypotheses on the digests are satisfiable *)
+Definition Dx := (bytes + option bytes * option N)%type.
+Example C04_digest_hypotheses_inhabited :
+  (forall a b : bytes, @inl bytes (option bytes * option N) a = inl b -> a = b) /\
+  (forall od om od' om', @inr bytes (option bytes * option N) (od, om) = inr (od', om') -> od = od' /\ om = om').
+Proof. split; [intros a b He; inversion He; reflexivity | intros od om od' om' He; inversion He; split; reflexivity]. Qed.
+
+Definition hdr (b : bytes) (m c : N) : node :=
+  {| n_kind := KFile; n_size := N.of_nat (length b); n_mtime := m; n_ctime := c; n_bytes := b |}.
+Definition cfg_default : config := cfg_of 9.     (* use_ctime_for_stat, hash_working_directory *)
+Definition cfg_itm : config := cfg_of 13.         (* + ignore_time_macros *)
+Definition fs_a : fsnap := [(bs "a.h", hdr (bs "AAAA") 90 90); (bs "b.h", hdr (bs "BBBB") 90 90)].
+Definition fs_b : fsnap := [(bs "a.h", hdr (bs "AAAA") 90 90); (bs "b.h", hdr (bs "CCCC") 90 150)].
+Definition op_ab : rec_op :=
+  {| ro_fresh := true; ro_fs := fs_a; ro_start := 100; ro_date := []; ro_input := bs "input.c"; ro_key := bs "k1";
+     ro_incs := [(bs "a.h", false); (bs "b.h", false)] |}.
+
+(* an unchanged tree is a hit ... *)
+Example C04_hit_when_unchanged :
+  lookup_result_digest Dg bytes_eqb Hx HTx cfg_default fs_a [] (run_recs Dg Hx HTx cfg_default [op_ab]) = Some (bs "k1").
+Proof. vm_compute. reflexivity. Qed.
+
+(* ... the S3 witness (ignore_time_macros, same-size edit of the SECOND header) is a miss on the fixed code *)
+Example C04_S3_witness_misses :
+  lookup_result_digest Dg bytes_eqb Hx HTx cfg_itm fs_b [] (run_recs Dg Hx HTx cfg_itm [op_ab]) = None.
+Proof. vm_compute. reflexivity. Qed.
+
+(* ... and so is the S4 witness (a header mentioning __DATE__, same-size edit; or the date changes) *)
+Definition fs_d0 : fsnap := [(bs "a.h", hdr (bs "//__DATE__ A") 90 90)].
+Definition fs_d1 : fsnap := [(bs "a.h", hdr (bs "//__DATE__ B") 90 150)].
+Definition op_d : rec_op :=
+  {| ro_fresh := true; ro_fs := fs_d0; ro_start := 100; ro_date := bs "day1"; ro_input := bs "input.c";
+     ro_key := bs "k1"; ro_incs := [(bs "a.h", false)] |}.
+Example C04_S4_witness_misses :
+  lookup_result_digest Dg bytes_eqb Hx HTx cfg_default fs_d1 (bs "day1") (run_recs Dg Hx HTx cfg_default [op_d]) = None
+  /\ lookup_result_digest Dg bytes_eqb Hx HTx cfg_default fs_d0 (bs "day2") (run_recs Dg Hx HTx cfg_default [op_d]) = None
+  /\ lookup_result_digest Dg bytes_eqb Hx HTx cfg_default fs_d0 (bs "day1") (run_recs Dg Hx HTx cfg_default [op_d]) = Some (bs "k1").
+Proof. vm_compute. repeat split; reflexivity. Qed.
+
+(* both sides of the instant: mtime = start disables recording, mtime = start - 1 does not *)
+Example C04_record_both_sides :
+  snd (apply_rec Dg Hx HTx cfg_default (entry_new Dg)
+         {| ro_fresh := true; ro_fs := [(bs "a.h", hdr (bs "A") 100 90)]; ro_start := 100; ro_date := [];
+            ro_input := bs "input.c"; ro_key := bs "k"; ro_incs := [(bs "a.h", false)] |}) = RecDisabled
+  /\ snd (apply_rec Dg Hx HTx cfg_default (entry_new Dg)
+         {| ro_fresh := true; ro_fs := [(bs "a.h", hdr (bs "A") 99 99)]; ro_start := 100; ro_date := [];
+            ro_input := bs "input.c"; ro_key := bs "k"; ro_incs := [(bs "a.h", false)] |}) = RecOk.
+Proof. vm_compute. split; reflexivity. Qed.
+
+(* the S17 witness: reads "0123456789abcdef__TI", "x", "ME__" no longer report __TIME__; "…__TI","M","E__" do *)
+Example C04_S17_witness :
+  f_time (scan_chunks [bs "0123456789abcdef__TI"; bs "x"; bs "ME__"]) = false /\
+  f_time (scan_chunks [bs "0123456789abcdef__TI"; bs "M"; bs "E__"]) = true.
+Proof. vm_compute. split; reflexivity. Qed.
+
+(* a gcc-like output is well-formed, and the scan records the two headers it announces (leading `..` kept) *)
+Definition out_lines : list line :=
+  [ LMarker (bs "0") (bs "input.c") [];
+    LMarker (bs "0") (bs "<built-in>") [];
+    LMarker (bs "1") (bs "/usr/include/stdc-predef.h") (bs " 1 3 4");
+    LMarker (bs "1") (bs "a.h") (bs " 1");
+    LBody (bs "int a = 1.5;");
+    LMarker (bs "2") (bs "input.c") (bs " 2");
+    LMarker (bs "1") (bs "../inc/c.h") (bs " 1");
+    LBody (bs "int c;");
+    LBody [] ].
+Definition out_fs : fsnap :=
+  [ (bs "/w/input.c", hdr (bs "I") 90 90); (bs "/w/a.h", hdr (bs "A") 90 90); (bs "/inc/c.h", hdr (bs "C") 90 90);
+    (bs "/w/inc/c.h", hdr (bs "decoy") 90 90); (bs "/usr/include/stdc-predef.h", hdr (bs "P") 90 90) ].
+Example C04_markers_example :
+  forallb wf_line out_lines = true /\
+  match process_preprocessed_file Dg Hx HTx (cfg_of 11) out_fs 100 [] (bs "/w/input.c") (bs "/w") (render_lines out_lines) with
+  | LmOk _ inc _ => map fst inc = [bs "/w/a.h"; bs "/w/../inc/c.h"]
+  | _ => False
+  end.
+Proof. vm_compute. split; reflexivity. Qed.
